@@ -33,6 +33,11 @@ func c16cScenario(name string, o tOpt, d int) vr.Scenario {
 			return V("stuck", fmt.Sprintf("execution did not finish, parked: %v", x.Blocked))
 		}
 		var key []string
+		for _, c := range s.calls {
+			if !c.refused && c.err == nil && !s.ownAnswer(c) {
+				return V("mis-framed-reply-delivered", fmt.Sprintf("call %d returned %d bytes that the server never sent as one frame", c.idx, len(c.resp)))
+			}
+		}
 		for _, cn := range s.conns {
 			var stream []byte
 			for _, w := range cn.a.Writes {
@@ -68,6 +73,8 @@ func TestVerifC16c(t *testing.T) {
 	scs := []vr.Scenario{
 		c16cScenario("tdc-tcp-c3-writers", tOpt{Kind: "tdc-tcp", Callers: 3, Srv: srvOpt{AnswerAll: true}}, d),
 		c16cScenario("pipeline-tcp-c3-writers", tOpt{Kind: "pipeline-tcp", Callers: 3, MaxCq: 3, LazyQueue: 3, Srv: srvOpt{AnswerAll: true}}, d-1),
+		c16cScenario("tdc-tcp-c2-runt-frames", tOpt{Kind: "tdc-tcp", Callers: 2, Srv: srvOpt{Short: true, Reorder: true}, CtxMode: []int{1, 1}}, d),
+		c16cScenario("reuse-c1-seq2-runt-frames", tOpt{Kind: "reuse", Callers: 1, Seq: 2, Srv: srvOpt{Short: true}, CtxMode: []int{1}}, d),
 		c16cScenario("reuse-c2-seq2-writers", tOpt{Kind: "reuse", Callers: 2, Seq: 2, Srv: srvOpt{AnswerAll: true}}, d-1),
 	}
 	vr.RunScenarios("C16", scs)
